@@ -155,11 +155,11 @@ Proof. exact ebc_node_vector_eq_bc_wei. Qed.
 (* ------------------------------------------------------------------------------------------ *)
 (* non-vacuity: a diamond with a tie (two equal-length routes 0->1->3, 0->2->3) plus an unreachable node *)
 (* ------------------------------------------------------------------------------------------ *)
-Example C08_nonvacuous_input : nonneg_len 5 (of_rows 0%Z diamond) /\ binary 5 (of_rows 0%Z [[0;1];[1;0]]%Z).
+Example C08_nonvacuous_input : nonneg_len 5 (of_rows 0%Z diamond) /\ binary 2 (of_rows 0%Z [[0;1];[1;0]]%Z).
 Proof. exact nonvacuous_input. Qed.
 Example C08_nonvacuous_output :
   run_bc_wei diamond = Some [0; 1#2; 1#2; 0; 0] /\
-  snd (fst (run_spec diamond)) = [0; 1#2; 1#2; 0; 0] /\
+  snd (fst (run_spec (firstn 4 (map (firstn 4) diamond)))) = [0; 1#2; 1#2; 0] /\
   option_map snd (run_ebc_wei diamond) = Some [0; 1#2; 1#2; 0; 0] /\
   option_map (fun r => match r with (q, qf, _, _, _) => (q, qf) end) (run_search true diamond 0) = Some ([4; 3; 2; 1; 0], 1)%nat.
 Proof. exact nonvacuous_output. Qed.
